@@ -202,7 +202,8 @@ def parse_out(text):
         elif cur is None:
             continue
         elif w[0] == "burst":
-            b = {"n": w[1], "frames": [], "ns": [], "sess": {}, "topics": {}, "hang": [], "unstuck": [], "injected": [], "goroutines": 0}
+            b = {"n": w[1], "frames": [], "ns": [], "sess": {}, "topics": {}, "hang": [], "unstuck": [], "injected": [], "goroutines": 0,
+                 "parked": [], "abandoned": []}
             cur["bursts"].append(b)
         elif w[0] in ("f", "p", "d"):
             b["frames"].append(w)
@@ -214,13 +215,17 @@ def parse_out(text):
             b["unstuck"].append(int(w[1]))
         elif w[0] == "fatal-hang":
             cur["fatal"] = True
+        elif w[0] == "parked":
+            b["parked"].append((w[2], " ".join(w[3:])))
+        elif w[0] == "abandoned":
+            b["abandoned"].append(int(w[1]))
         elif w[0] == "injected":
             b["injected"].append(int(w[2]))
         elif w[0] == "state" and w[1] == "sess":
             d = dict(p.split("=", 1) for p in w[3:])
             d["subs"] = set(int(x) for x in d["subs"].split(",") if x and not x.startswith("?"))
-            for key in ("user", "term", "closed", "cleaned", "inflight", "detachq", "sendq"):
-                d[key] = int(d[key])
+            for key in ("user", "term", "closed", "cleaned", "inflight", "detachq", "sendq", "dead"):
+                d[key] = int(d.get(key, 0))
             b["sess"][int(w[2])] = d
         elif w[0] == "state" and w[1] == "topic":
             d = dict(p.split("=", 1) for p in w[3:])
@@ -232,6 +237,11 @@ def parse_out(text):
             b["topics"][int(w[2])] = d
         elif w[0] == "goroutines":
             b["goroutines"] = int(w[1])
+            b["complete"] = True
+        elif w[0] == "unblocked-stop":
+            b.setdefault("unblocked_stop", []).append(int(w[1]))
+        elif w[0] == "autounstall":
+            b.setdefault("autounstall", []).append(int(w[1]))
         elif w[0] == "final":
             cur["final"] = dict(p.split("=", 1) for p in w[1:])
         elif w[0] == "end":
@@ -276,7 +286,9 @@ def run_driver(ctx, scns, tag="main", binary=None, extra_env=None, timeout=1500)
             bad = rest[0]
             r = got.get(bad.id, {"bursts": [], "final": None, "ended": False, "fatal": False})
             r["died"] = True
-            r["log"] = "\n".join(x for x in log.split("\n") if not re.match(r"^[IWE]\d{4}/", x))[-3000:]
+            txt = "\n".join(x for x in log.split("\n") if not re.match(r"^[IWE]\d{4}/", x))
+            m = re.search(r"^(fatal error:|panic:)", txt, re.M)
+            r["log"] = txt[m.start():m.start() + 3000] if m else txt[-3000:]
             results[bad.id] = r
             rest = rest[1:]
         todo = rest
@@ -293,16 +305,51 @@ def requests_of(burst_lines):
     return res
 
 
+def exit_possible(sc, k, lines):
+    """can an instance of topic k terminate inside this burst (idle unload injected, {del topic}, {del user},
+    last p2p party unsubscribing)?"""
+    t = sc.topics.get(k)
+    if t is None:
+        return False
+    for l in lines:
+        w = l.split()
+        if w[0] == "i" and w[1] == "unload" and int(w[2]) == k:
+            return True
+        if w[0] == "q":
+            if w[3] == "deluser":
+                return True
+            if w[3] == "deltopic" and int(w[4]) == k:
+                return True
+            if w[3] == "leave" and int(w[4]) == k and w[5] == "1" and t["kind"] == "p2p":
+                return True
+    return False
+
+
+def crash_law(log):
+    """name of the law for a dead driver process, from the head of its log"""
+    if "fatal error: concurrent map" in log:
+        m = re.search(r"goroutine \d+ \[running\]:\n(?:.*\n)*?\S*server\.\(?\*?(\w+)\)?\.(\w+)", log)
+        fn = m.group(2) if m else "unknown"
+        return "concurrent-map-crash-" + fn
+    return "server-crashed-or-hung"
+
+
 def monitor(sc, r):
-    """-> list of (law, burst index, detail)"""
+    """The laws of C14 on what the driver printed at each quiescence. -> list of (law, burst index, detail).
+    Laws with a circumstance in their name are the narrow forms under which a reproduced defect of the
+    server shows (findings/C14.md); everything else keeps the general name."""
     res = []
     if r.get("died"):
-        res.append(("server-crashed-or-hung", len(r["bursts"]) - 1, "driver process ended inside this scenario: " + r.get("log", "")[-1200:]))
+        log = r.get("log", "")
+        hangs = [h for b in r["bursts"][-1:] for h in b["hang"]]
+        res.append((crash_law(log), len(r["bursts"]) - 1, "driver process ended inside this scenario: " + (log[:1500] or " | ".join(hangs)[:1500])))
     prev = None
     stalled = set()
     deleted = set()      # group topics whose deletion completed in an earlier burst
     slow = set(si for si, s in sc.sessions.items() if s.get("cap"))
     broken = set()       # sessions whose in-flight semaphore was already reported stuck
+    dead = set()         # sessions abandoned inside {del user}
+    nleaked = 0
     for bi, b in enumerate(r["bursts"]):
         lines = sc.bursts[bi] if bi < len(sc.bursts) else []
         for l in lines:
@@ -311,16 +358,31 @@ def monitor(sc, r):
                 stalled.add(int(w[2]))
             if w[0] == "i" and w[1] == "unstall":
                 stalled.discard(int(w[2]))
+        for si in b.get("autounstall", ()):
+            stalled.discard(si)
         reqs = requests_of(lines)
         ns = set(b["ns"])
-        for h in b["hang"]:
-            law = "hang"
-            if "inflightReqs" in h or "boundedWaitGroup" in h or b["unstuck"]:
-                law = "session-blocked-on-inflight"
-                if set(b["unstuck"]) <= broken:
-                    continue      # consequence of a loss already reported for this session
-            res.append((law, bi, h[:1500]))
-        broken |= set(b["unstuck"])
+        if not b.get("complete"):
+            continue      # the process ended inside this burst (reported above): nothing was printed at quiescence
+        # ---- goroutines of the server parked for ever
+        nil_done = False
+        for kind, fns in b["parked"]:
+            nleaked += 1
+            if kind == "nil-chan-send" and "topicInit" in fns:
+                nil_done = True
+                res.append(("topicinit-parked-on-nil-done", bi, "topicInit goroutine parked for ever in a send on a nil channel (init_topic.go:95-98, shutDown.done == nil): " + fns))
+            elif kind == "chan-receive" and ("replyDelUser" in fns or "stopTopicsForUser" in fns):
+                if "replyDelUser" in fns:
+                    res.append(("deluser-blocked-on-topic-exit", bi, "{del user} never returns: replyDelUser waits for stopTopicsForUser, which waits for the done signal of a topic that will never send it: " + fns))
+            else:
+                res.append(("hang", bi, "goroutine parked for ever: %s %s" % (kind, fns)))
+        dead |= set(b["abandoned"])
+        for si in b.get("unblocked_stop", ()):
+            u = sc.sessions[si]["user"]
+            n = sum(1 for x in reqs if x["kind"] == "deluser" and sc.sessions[x["si"]]["user"] == u)
+            h = [x for x in b["hang"] if "stopSession" in x]
+            res.append(("session-blocked-on-stop-concurrent-deluser" if n >= 2 else "session-blocked-on-stop", bi,
+                        "session %d: Session.stop (capacity 1) is full and the write loop has left; the read loop blocks for ever in stopSession (%d {del user} of user %d in this burst): %s" % (si, n, u, (h or [""])[0][:700])))
         # ---- replies
         ctrl = {}
         evicted = {}
@@ -334,6 +396,22 @@ def monitor(sc, r):
                     evicted.setdefault(si, set()).add(w[5])
             elif w[0] == "p" and w[3] == "gone":
                 gone.setdefault(si, set()).add(w[4])
+        stuck_now = set(si for si, st in b["sess"].items() if st["inflight"] != 0) | set(b["unstuck"])
+        explained = set()     # sessions whose stuck semaphore is explained by a law reported in this burst
+        # (session, topic): an unsubscribe of its own ({leave unsub}, or {del topic} by a non-owner, which travels through
+        # another queue of the topic and can overtake) was accepted in this burst
+        own_unsub = set()
+        last_held = {}        # session -> its last sub/leave request without a reply (the one that holds the semaphore)
+        for q in reqs:
+            if (q["si"], q["rid"]) in ns:
+                continue
+            got = ctrl.get((q["si"], q["rid"]), [])
+            if q["kind"] == "deltopic":
+                q["nonowner"] = sc.topics[q["k"]].get("owner") != sc.sessions[q["si"]]["user"]
+            if ((q["kind"] == "leave" and q["arg"] == "1") or q.get("nonowner")) and 200 in got:
+                own_unsub.add((q["si"], q["k"]))
+            if q["kind"] in ("sub", "leave") and not got:
+                last_held[q["si"]] = q["rid"]
         for q in reqs:
             if (q["si"], q["rid"]) in ns or q["kind"] == "disc":
                 continue
@@ -341,39 +419,74 @@ def monitor(sc, r):
             st = b["sess"].get(q["si"], {})
             if len(got) > 1:
                 res.append(("reply-duplicated", bi, "request %s (%s) of session %d answered %d times: %s" % (q["rid"], q["kind"], q["si"], len(got), got)))
+            nonowner_del = bool(q.get("nonowner"))
             if q["kind"] not in EXPECT_REPLY or got:
                 continue
-            if q["si"] in slow or q["si"] in stalled or st.get("closed") or st.get("term") or q["si"] in broken:
-                continue      # replies to a closing session or a full send queue are dropped by design
+            stuck = q["si"] in stuck_now and last_held.get(q["si"]) == q["rid"]
+            gone_sess = st.get("closed") or st.get("term")
+            if q["si"] in dead:
+                continue
+            silent_by_design = q["si"] in slow or q["si"] in stalled or gone_sess or q["si"] in broken
+            if silent_by_design and not (stuck and q["kind"] in ("sub", "leave") and q["si"] not in broken):
+                continue      # replies to a full send queue / to a closing session are dropped by design;
+                              # a request that also keeps the in-flight semaphore is judged all the same
+            if q["kind"] == "deluser":
+                continue      # the session is stopped right after the reply is queued
             if q["kind"] == "leave" and str(q["k"]) in evicted.get(q["si"], ()):
                 continue      # the leave crossed the session's eviction: the eviction notice answers it
-            stuck = (st.get("inflight", 0) != 0) or (q["si"] in b["unstuck"])
-            if q["kind"] == "leave" and stuck:
+            # the instance the session points to can have terminated: in this burst, or earlier when the session's
+            # detach notice was still in flight at the last quiescence (stalled writer)
+            exitp = exit_possible(sc, q["k"], lines) or bool(prev and prev["sess"].get(q["si"], {}).get("detachq"))
+            subs_in_burst = any(x["kind"] == "sub" and x["k"] == q["k"] for x in reqs)
+            if q["kind"] == "leave" and stuck and exitp:
                 law = "leave-lost-in-exited-topic"
+                explained.add(q["si"])
+            elif q["kind"] == "leave" and not stuck and (q["si"], q["k"]) in own_unsub:
+                law = "leave-after-own-unsub-unanswered"
             elif q["kind"] == "leave":
                 law = "leave-unanswered"
+            elif q["kind"] == "sub" and stuck and exitp:
+                law = "sub-lost-in-exited-topic"
+                explained.add(q["si"])
+            elif q["kind"] == "sub" and not stuck and exitp:
+                law = "sub-dropped-topic-stopped-while-loading"
             elif q["kind"] == "sub":
                 law = "sub-unanswered"
-            elif q["kind"] == "deltopic" and sc.topics[q["k"]]["owner"] == sc.sessions[q["si"]]["user"] and b["topics"].get(q["k"], {}).get("stored"):
+            elif q["kind"] == "deltopic" and not nonowner_del and subs_in_burst:
                 law = "owner-del-dropped-while-loading"
+            elif nonowner_del and (any(x["kind"] == "deluser" or (x["kind"] == "deltopic" and x["k"] == q["k"] and x["si"] != q["si"]) for x in reqs)
+                                   or any(l.split()[:3] == ["i", "unload", str(q["k"])] for l in lines)):
+                law = "del-lost-in-exited-topic"
             else:
                 law = "del-unanswered"
             res.append((law, bi, "request %s (%s topic %s) of session %d got no reply; session state %s" % (
                 q["rid"], q["kind"], q["k"], q["si"], {k: v for k, v in st.items() if k != "subs"})))
+        # ---- request bookkeeping never blocks a session for ever
+        for si in sorted(stuck_now):
+            if si in broken or si in dead:
+                continue
+            broken.add(si)
+            if si in explained or nil_done:
+                continue      # the lost request / the parked topicInit of this burst is the reported cause
+            st = b["sess"].get(si, {})
+            if si in b["unstuck"]:
+                h = [x for x in b["hang"] if "boundedWaitGroup" in x or "inflightReqs" in x]
+                res.append(("session-blocked-on-inflight", bi, "session %d blocked on its in-flight semaphore (subscribe/leave Add or cleanUp Wait) with nothing left to release it: %s" % (si, (h or [""])[0][:900])))
+            else:
+                res.append(("inflight-stuck", bi, "session %d has %d request(s) in flight at quiescence (its next subscribe/leave and its cleanUp block for ever)" % (si, st.get("inflight", 0))))
+        for h in b["hang"]:
+            if b["unstuck"] or b["parked"] or b["abandoned"] or b.get("unblocked_stop"):
+                continue      # diagnosed above
+            res.append(("hang", bi, h[:1500]))
         # ---- state at quiescence
         for si, st in b["sess"].items():
             live = st["term"] == 0
-            if live and st["inflight"] != 0 and si not in b["unstuck"] and si not in broken:
-                broken.add(si)
-                lost = [q for q in reqs if q["si"] == si and q["kind"] == "leave" and not ctrl.get((si, q["rid"]))]
-                res.append(("leave-lost-in-exited-topic" if lost else "inflight-stuck", bi,
-                            "live session %d has %d request(s) in flight at quiescence (its next subscribe/leave and its cleanUp block forever)" % (si, st["inflight"])))
-            if st["term"] == 1 and st["cleaned"] == 0:
+            if st["term"] == 1 and st["cleaned"] == 0 and si not in dead:
                 res.append(("cleanup-stuck", bi, "session %d is terminating but cleanUp did not finish" % si))
             for k, t in b["topics"].items():
                 a = k in st["subs"]
                 z = t["loaded"] and si in t["sessions"]
-                if live and st["detachq"] == 0 and si not in stalled and a != z:
+                if live and st["detachq"] == 0 and si not in stalled and si not in dead and a != z:
                     res.append(("attach-symmetry", bi, "session %d %s topic %d but the topic (loaded=%s) %s the session" % (
                         si, "lists" if a else "does not list", k, t["loaded"], "lists" if z else "does not list")))
                 if st["term"] == 1 and st["cleaned"] == 1 and z:
@@ -394,11 +507,14 @@ def monitor(sc, r):
                 elif have < 0:
                     res.append(("online-count-negative", bi, "topic %d: online count of user %d is %d" % (k, u, have)))
                 elif have != cnt.get(u, 0):
-                    chan = sc.topics[k]["kind"] == "chn" and u != sc.topics[k]["owner"] and have > cnt.get(u, 0)
+                    chan = sc.topics[k]["kind"] == "chn" and u != sc.topics[k]["owner"] and u not in sc.topics[k]["members"] and have > cnt.get(u, 0)
                     res.append(("online-count-chan-reader" if chan else "online-count", bi, "topic %d: online count of user %d is %d, attached sessions %d" % (k, u, have, cnt.get(u, 0))))
         # ---- deletion
         for q in reqs:
             if q["kind"] == "sub" and q["k"] in deleted:
+                st0 = prev["sess"].get(q["si"], {}) if prev else {}
+                if q["k"] in st0.get("subs", ()) or st0.get("detachq"):
+                    continue      # the session's detach notice was still in flight at the last quiescence (stalled writer)
                 for code in ctrl.get((q["si"], q["rid"]), []):
                     if code < 400:
                         res.append(("deleted-refuses", bi, "subscribe %s to deleted topic %d answered %d" % (q["rid"], q["k"], code)))
@@ -412,27 +528,35 @@ def monitor(sc, r):
             if b["topics"].get(k, {}).get("stored") or b["topics"].get(k, {}).get("loaded"):
                 res.append(("deleted-gone", bi, "topic %d deleted by its owner (200) is still stored/loaded: %s" % (k, b["topics"].get(k))))
                 continue
-            if prev is not None:
-                # sessions which were attached, did nothing that touches the topic or their 'me' in this burst
+            if prev is not None and k not in deleted:
+                # sessions which were attached and did nothing that touches the topic or their 'me' in this burst
                 for si in prev["topics"].get(k, {}).get("sessions", ()):
                     u = sc.sessions[si]["user"]
                     mek = me_of(sc, u)
                     st0, st1 = prev["sess"][si], b["sess"][si]
                     touched = any(x["si"] == si and (x["k"] in (k, mek) or x["kind"] in ("disc", "deluser")) for x in reqs)
-                    if touched or si in slow or si in stalled or st1["term"] or st1["closed"] or mek is None:
+                    if touched or si in slow or si in stalled or si in dead or st1["term"] or st1["closed"]:
                         continue
-                    if mek in st0["subs"] and mek in st1["subs"] and not any(x["kind"] == "deluser" for x in reqs):
-                        if str(k) not in gone.get(si, ()) and str(k) not in evicted.get(si, ()):
-                            res.append(("deleted-told-gone", bi, "session %d was attached to deleted topic %d (and to 'me') and got neither 'gone' nor 'evicted'" % (si, k)))
+                    if any(x["kind"] == "deluser" for x in reqs):
+                        continue
+                    if str(k) in gone.get(si, ()) or str(k) in evicted.get(si, ()):
+                        continue
+                    reader = sc.topics[k]["kind"] == "chn" and u != sc.topics[k]["owner"] and u not in sc.topics[k]["members"]
+                    on_me = mek is not None and mek in st0["subs"] and mek in st1["subs"]
+                    if reader:
+                        law = "deleted-told-gone-chan-reader"
+                    elif not on_me:
+                        law = "deleted-told-gone-not-on-me"
+                    else:
+                        law = "deleted-told-gone"
+                    res.append((law, bi, "session %d (user %d%s%s) was attached to topic %d when its owner deleted it and got neither {pres gone} nor {ctrl evicted}" % (
+                        si, u, ", channel reader" if reader else "", ", attached to 'me'" if on_me else ", not attached to 'me'", k)))
             deleted.add(k)
-        if any(x["kind"] == "deluser" for x in reqs):
-            # owned topics disappear with the account; the later refusal check would need the store: skip those
-            pass
         prev = b
     f = r.get("final")
     if f:
-        if f["goroutines"] != f["baseline"]:
-            res.append(("goroutine-leak", len(r["bursts"]) - 1, "after every session disconnected and every topic was unloaded %s goroutines remain, baseline %s" % (f["goroutines"], f["baseline"])))
+        if int(f["goroutines"]) - int(f.get("leaked", 0)) != int(f["baseline"]):
+            res.append(("goroutine-leak", len(r["bursts"]) - 1, "after every session disconnected and every topic was unloaded %s goroutines remain (%s of them reported as parked for ever), baseline %s" % (f["goroutines"], f.get("leaked", 0), f["baseline"])))
         if f["loaded_topics"] != "1":
             res.append(("topic-leak", len(r["bursts"]) - 1, "topics still loaded after unload of everything: %s" % f["loaded_topics"]))
     return res
@@ -649,13 +773,36 @@ def run(ctx):
         "impl_wall_s": round(t_impl, 1),
         "race_detector": race if race is not None else "not run in the quick tier (thorough tier: -race build of the driver on the burst scenarios)",
         "samples": [{"driver_input": sc.lines()[:40]} for sc in (bursts[:1] + seqs[:1])],
+        "corpus_scenarios": len([sc for sc in bursts if sc.id.startswith("c_")]),
+        "theorem_status": {
+            "full (every reachable configuration, any number of sessions/topics/instances, any interleaving)": [
+                "c14_inflight_never_low", "c14_reply_at_most_once", "c14_reply_conserved_stepwise", "c14_quiescent_symmetry",
+                "c14_symmetry_modulo_detach", "c14_attached_listed", "c14_terminated_detached", "c14_online_restored",
+                "c14_deleted_stays_deleted", "c14_deleted_refuses", "c14_deleted_load_fails", "c14_deleted_not_running",
+                "c14_deleted_sessions_detached"],
+            "refuted by a witness schedule replayed on the real code": [
+                "c14_inflight_balance_statement (c14_inflight_balance_refuted, corpus/C14/01)",
+                "c14_reply_exactly_one_statement (c14_reply_exactly_one_refuted, corpus/C14/03)",
+                "c14_no_stuck_statement (c14_no_stuck_refuted_lost_leave corpus/C14/02, c14_no_stuck_refuted_nil_done corpus/C14/01)"],
+            "partial (on the executions that avoid exactly the refuting steps)": [
+                "c14_inflight_balance_partial (reach_safe: no load failure of an instance with a queued termination request)",
+                "c14_reply_exactly_one_partial, c14_reply_at_quiescence_partial (reachI_ok: none of the three steps of `lossy`)",
+                "c14_no_stuck_partial (reach_safe and no request in a queue of an instance whose goroutine is gone)"],
+            "tested in support, NOT proved": [
+                "last clause of the property (shared data touched only under its lock / atomic): Go race detector on the burst scenarios, thorough tier",
+                "account deletion, p2p, 'me', channels, presence, bounded channel capacities: burst driver + laws only"]},
         "trusted_base": [
-            "harness/overlay/server/zz_verif_c14_test.go: reader/writer goroutines standing in for the websocket loops (hdl_websock.go:39-145), quiescence by goroutine-state snapshot (vQuiescent of the topic driver) + pending-request counter, direct field reads at quiescence",
+            "harness/overlay/server/zz_verif_c14_test.go: reader/writer goroutines standing in for the websocket loops (hdl_websock.go:39-145); quiescence = every goroutine parked in a receive/select + hub/topic queues empty + no request pending (runtime.Stack snapshot, as vQuiescent of the topic driver); a hang = every goroutine parked while a request is pending or a goroutine sits in a send/lock/semaphore, in 20 consecutive snapshots (no wall-clock guess); goroutines diagnosed as parked for ever are reported once and then ignored; direct field reads at quiescence",
             "harness/overlay/server/db/memverif: in-memory adapter (store contract modelled, not verified)",
-            "tools/props/c14.py laws: python restatement of the property on the driver's output",
-            "Lifecycle.v scope: group topics, owners delete, unbounded FIFO queues (real buffers: hub.join 256, hub.unreg 256, topic.reg/unreg 256, meta 64, exit 1, session.detach 64): deadlocks that need a full buffer are outside the model; hub and topic handler bodies are atomic steps; account deletion, p2p, 'me', channels, presence are exercised by the driver only",
+            "tools/props/c14.py laws: python restatement of the property on the driver's output; laws with a circumstance in their name are the narrow forms of reproduced defects (findings/C14.md, KNOWN_FINDINGS.txt) - a failure outside these circumstances keeps the general name and is a violation",
+            "Lifecycle.v scope: group topics, owners delete, unbounded FIFO queues (real buffers: hub.join 256, hub.unreg 256, topic.reg/unreg 256, meta 64, exit 1, session.detach 64, session.stop 1): deadlocks that need a full buffer are outside the model; hub and topic handler bodies are atomic steps; account deletion, p2p, 'me', channels, presence are exercised by the driver only",
+            "sequential schedules (one request per burst) are compared exactly with the extracted model; concurrent bursts are judged by the laws only (the model's interleavings are quantified over in the theorems, not enumerated by the run)",
             "last clause of the property (shared data only touched under its lock/atomic): NOT proved, no Gallina model expresses Go memory accesses; checked dynamically by the Go race detector in the thorough tier (testing in support)"],
     })
+    ctx.assumptions += [
+        "queues are unbounded FIFOs in the model; one handler body of hub / topic / topicInit is one atomic step",
+        "Go runtime semantics of channels, select, sync.Map, sync.WaitGroup are modelled, not verified",
+        "the race detector (thorough tier) sees only the interleavings the burst scenarios happen to produce"]
     ctx.finish(level="proof")
 
 
@@ -676,21 +823,35 @@ def run_race(ctx, scns):
             reports.append(m.group(1))
     sites = {}
     for rep in reports:
-        fr = re.findall(r"\n\s+(main\.[^\n(]+)\(\)\n\s+(\S+?):(\d+)", "\n" + rep)
-        server = [(f, os.path.basename(p), ln) for f, p, ln in fr if "zz_verif" not in p]
-        key = " <-> ".join("%s %s:%s" % x for x in server[:1] + [x for x in server[1:] if x != server[0]][:1]) if server else "harness-only"
-        # first frame of each of the two stacks
-        stacks = re.split(r"\n\n", rep)
+        # first frame of each of the two stacks that is not inside the Go runtime
         tops = []
-        for s in stacks[:2]:
-            m = re.search(r"\n\s+(\S+)\(\)\n\s+(\S+?):(\d+)", "\n" + s)
-            if m:
-                tops.append("%s %s:%s" % (m.group(1), os.path.basename(m.group(2)), m.group(3)))
-        key = " <-> ".join(tops) if tops else key
-        sites.setdefault(key, []).append(rep)
-    for key, reps in sites.items():
-        if "zz_verif" in key and "main." not in key.replace("zz_verif", ""):
-            continue
-        ctx.violation("monitor", "data-race", "Go race detector: unsynchronised access %s (%d reports)" % (key, len(reps)),
-                      {"race_report": reps[0][:3000], "site": key, "how": "thorough tier, -race build of the driver, burst scenarios"})
+        for st in re.split(r"\n\n", rep)[:2]:
+            for m in re.finditer(r"\n\s+(\S+)\(\)\n\s+(\S+?):(\d+)", "\n" + st):
+                if m.group(1).startswith("runtime.") or m.group(1).startswith("sync."):
+                    continue
+                tops.append((m.group(1).split("/")[-1], os.path.basename(m.group(2)), m.group(3)))
+                break
+        sites.setdefault(tuple(tops), []).append(rep)
+    laws = {}
+    for tops, reps in sites.items():
+        if not tops or any("zz_verif" in f for _, f, _ in tops):
+            continue      # an access of the driver itself (it reads the server's objects at quiescence)
+        fns = [re.sub(r"\.func\d+$", "", fn.replace("server.", "").replace("(*", "").replace(")", "")) for fn, _, _ in tops]
+        files = [f for _, f, _ in tops]
+        if any(f.endswith("stopTopicsForUser") or f.endswith("topicsStateForUser") for f in fns):
+            law = "data-race-stopTopicsForUser-reads-topic-state"
+        elif any(f == "Hub.topicUnreg" for f in fns) and any(fl == "init_topic.go" for fl in files):
+            law = "data-race-topicUnreg-reads-loading-topic"
+        elif all(f in ("Hub.topicPut", "Hub.topicDel") for f in fns):
+            law = "data-race-hub-numTopics"
+        else:
+            law = "data-race-" + "-".join(sorted(set(fns)))
+        laws.setdefault(law, []).append((tops, reps))
+    for law, lst in laws.items():
+        tops, reps = lst[0]
+        ctx.violation("monitor", law, "Go race detector: unsynchronised access %s (%d reports, %d site pairs)" % (
+            " <-> ".join("%s %s:%s" % t for t in tops), sum(len(r) for _, r in lst), len(lst)),
+            {"race_report": reps[0][:3000], "sites": [" <-> ".join("%s %s:%s" % t for t in tp) for tp, _ in lst][:20],
+             "how": "thorough tier, -race build of the driver, burst scenarios"})
+    sites = {" <-> ".join("%s %s:%s" % t for t in tp): r for tp, r in sites.items()}
     return {"built": True, "scenarios": len(scns), "reports": len(reports), "distinct_sites": sorted(sites)[:40], "wall_s": round(time.time() - t0, 1)}
